@@ -748,7 +748,7 @@ func TestLargeScale(t *testing.T) {
 		name   string
 		frames func(masked bool) []ref.Frame
 	}
-	sizes := []int{MiB - 1, MiB, MiB + 1, 2*MiB + 3}
+	sizes := []int{125, 126, 127, 65535, 65536, 65537, MiB - 1, MiB, MiB + 1, 2*MiB + 3}
 	if hx.Thorough() {
 		sizes = append(sizes, 3*MiB, 4*MiB+5)
 	}
@@ -838,5 +838,5 @@ func TestLargeScale(t *testing.T) {
 		}
 	}
 	hx.EvalN(n)
-	hx.Part("large scale: frames of 1 MiB-1 .. 2 MiB+3 (thorough: .. 4 MiB+5), 300-fragment message, 500 messages on one reader x 2 sides x chunk{all,4093} x 5 entry points", int64(n), true)
+	hx.Part("large scale: frames of exactly 125/126/127/65535/65536/65537 bytes and 1 MiB-1 .. 2 MiB+3 (thorough: .. 4 MiB+5), 300-fragment message, 500 messages on one reader x 2 sides x chunk{all,4093} x 5 entry points", int64(n), true)
 }
